@@ -251,7 +251,7 @@ Proof.
     inv_bind H. rename x0 into sk.
     destruct (r_sender r) as [sk'|] eqn:S; [| discriminate]. inversion E0; subst sk'. simpl.
     inv_bind H. rename x0 into zs. inv_bind H. rename x0 into ze.
-    rewrite HG, Imp. simpl.
+    rewrite Ckt. simpl. rewrite HG, Imp. simpl.
     rewrite (exchange_sym_full _ _ _ E1 Priv (Skt sk eq_refl)). simpl.
     rewrite (exchange_sym _ _ _ E2 Priv Kt). simpl. exact H.
   - unfold ecdhes_dec_auk. rewrite AI. simpl. rewrite Ckt. simpl.
@@ -268,9 +268,11 @@ Theorem cek_rt_rsa a s prot unprot r d cek prot' r' ek hs' :
   decrypt_cek O a hs' (set_ek r' ek) = Ok cek /\ prot' = prot /\ r' = r.
 Proof.
   intros F H P. unfold encrypt_cek in H. rewrite F in H.
-  inv_bind H. inv_bind H. inversion H; subst.
+  inv_bind H. inv_bind H.
+  match type of H with (if ?b then _ else _) = _ => destruct b; [discriminate |] end.
+  inv_bind H. inversion H; subst.
   unfold decrypt_cek. rewrite F. simpl. rewrite E. simpl. rewrite P. simpl.
-  rewrite (ct_rsa O C _ _ _ _ E0). auto.
+  rewrite (ct_rsa O C _ _ _ _ E1). auto.
 Qed.
 
 Theorem cek_rt_aeskw a s prot unprot r d cek prot' r' ek hs' :
@@ -477,7 +479,9 @@ Lemma encrypt_cek_json_prot a s prot unprot r d cek p' r' ek :
 Proof.
   intros N H. unfold encrypt_cek in H.
   destruct (fam_is (ea_family a) "RSA").
-  { inv_bind H. inv_bind H. inversion H; reflexivity. }
+  { inv_bind H. inv_bind H.
+    match type of H with (if ?b then _ else _) = _ => destruct b; [discriminate |] end.
+    inv_bind H. inversion H; reflexivity. }
   destruct (fam_is (ea_family a) "AESKW").
   { inv_bind H. inv_bind H. inversion H; reflexivity. }
   destruct (fam_is (ea_family a) "AESGCMKW").
@@ -1498,7 +1502,7 @@ Definition toy_oracles : oracles := {|
   o_gcm_enc := fun _ _ _ m => Ok (m, [1]); o_gcm_dec := fun _ _ _ c _ => Ok (Some c);
   o_cc_enc := fun _ _ _ m => Ok (m, [2]); o_cc_dec := fun _ _ _ c _ => Ok c;
   o_kw_wrap := fun _ c => Ok c; o_kw_unwrap := fun _ e => Ok (Some e);
-  o_rsa_enc := fun _ _ c => Ok c; o_rsa_dec := fun _ _ e => Ok e;
+  o_rsa_enc := fun _ _ c => Ok c; o_rsa_dec := fun _ _ e => Ok e; o_rsa_bits := fun _ => Ok 2048;
   o_pbkdf2 := fun _ _ _ _ l => Ok (repeat 7 (N.to_nat l));
   o_ckdf := fun _ _ _ l => Ok (repeat 9 (N.to_nat l));
   o_ecdh := fun _ _ => Ok [3];
